@@ -10,7 +10,8 @@
 //                                                                     A <addr> <recv|change> <type>    address *returned* by GetNew(Change)Destination
 //                                                                     AF <recv|change> <type>          request failed (legal: keypool ran out)
 //                                                                     D <raw digest> <canon digest>    snapshot (texts in D.side/dumps.txt)
-//   wcrash_recover --p dir=IMG --p side=S [--p pass=HEX] [--p keys=FILE] [--p naddr=N]
+//   wcrash_recover --p dir=IMG | --p list=FILE (lines "<image id> <dir>": several images on one node process)
+//                  --p side=S [--p pass=HEX] [--p keys=FILE] [--p naddr=N] [--p sync=1]
 //                                                                   load a wallet image read-write exactly as the loader does (MakeWalletDatabase ->
 //                                                                   CWallet::LoadExisting -> NotifyWalletLoaded -> postInitProcess) and report load status,
 //                                                                   raw record dump (taken through a cursor before the load), canonical dump, encryption state,
@@ -271,6 +272,37 @@ void CleanUnload(WalletSim& sim)
         sim.W().WriteBestBlock();
     }
     sim.UnloadWallet();
+}
+
+//! Load the wallet of the current -walletdir the way the loader does, without the fixture (which cannot report a failed load).
+std::shared_ptr<CWallet> SafeLoad(WalletSim& sim, std::string& err)
+{
+    wallet::DatabaseOptions options;
+    options.require_existing = true;
+    wallet::ReadDatabaseArgs(*sim.Context().args, options);
+    wallet::DatabaseStatus status;
+    bilingual_str error;
+    std::vector<bilingual_str> warnings;
+    std::shared_ptr<CWallet> w;
+    try {
+        auto database = wallet::MakeWalletDatabase("", options, status, error);
+        if (!database) {
+            err = "open: " + error.original;
+            return nullptr;
+        }
+        w = CWallet::LoadExisting(sim.Context(), "", std::move(database), error, warnings);
+    } catch (const std::exception& e) {
+        err = std::string("exception: ") + e.what();
+        return nullptr;
+    }
+    if (!w) {
+        err = "load: " + error.original;
+        return nullptr;
+    }
+    wallet::NotifyWalletLoaded(sim.Context(), w);
+    w->postInitProcess();
+    sim.Drain();
+    return w;
 }
 
 struct KeyMaterial {
@@ -690,7 +722,10 @@ struct Runner {
                 std::vector<Txid> all;
                 {
                     LOCK(W().cs_wallet);
-                    for (const auto& [id, wtx] : W().mapWallet) all.push_back(id);
+                    // not the ones the node's mempool still holds: a loading wallet asks the mempool for its transactions and would take them back
+                    for (const auto& [id, wtx] : W().mapWallet) {
+                        if (!wtx.InMempool()) all.push_back(id);
+                    }
                 }
                 if (all.empty()) return Step({1, 1, 1, 0, 0, 0, 0, 0, 0, 0, 0, 0, 0, 0, 0});
                 rng.shuffle(all);
@@ -795,6 +830,8 @@ struct Plan {
     int steps{30};
     std::vector<uint32_t> w; //!< weights per OpKind
     int encrypt_at{-1};      //!< step at which the wallet is encrypted (-1: by weight only)
+    std::map<int, int> forced_imports; //!< step -> descriptor kind
+    bool avoid_reuse{false}; //!< wallet created with the avoid-reuse flag (a flag set later changes what a reload derives from the mempool)
 };
 
 Plan MakePlan(int plan, int rec, uint64_t seed, int64_t steps_override)
@@ -813,7 +850,9 @@ Plan MakePlan(int plan, int rec, uint64_t seed, int64_t steps_override)
         p.fund = true;
         p.init_imports = 2;
         p.steps = 34;
-        p.w = {5, 3, 5, 5, 3, 2, 7, 4, 3, 4, 2, 0, 1, 2, 1};
+        p.w = {5, 3, 5, 5, 3, 2, 7, 4, 3, 4, 2, 0, 1, 2, 0};
+        p.avoid_reuse = (rec % 3) == 2;
+        p.forced_imports = {{2, (rec % 2) ? 0 : 5}, {7, 2 + rec % 3}};
         p.encrypt_at = (rec % 2) ? 12 + static_cast<int>(r.below(8)) : -1;
     } else { // 62
         p.keypool = 1 + static_cast<int>((seed + static_cast<uint64_t>(rec)) % 5);
@@ -929,6 +968,16 @@ void RunSteps(WalletSim& sim, Runner& R, const Plan& p)
 {
     R.Snap();
     for (int s = 0; s < p.steps; ++s) {
+        if (auto it = p.forced_imports.find(s); it != p.forced_imports.end() && !sim.W().IsLocked()) {
+            // directed: every recording contains a labelled single-key import and a hardened-range import
+            R.Begin(IMPORT, "import", "kind" + std::to_string(it->second));
+            try {
+                R.End(IMPORT, R.ImportDesc(it->second, /*active=*/false));
+            } catch (const std::runtime_error& e) {
+                R.End(IMPORT, std::string("exception:") + e.what());
+            }
+            continue;
+        }
         if (s == p.encrypt_at && !sim.W().HasEncryptionKeys()) {
             R.Begin(ENCRYPT, "encrypt", "");
             R.End(ENCRYPT, R.Encrypt());
@@ -983,6 +1032,7 @@ VH_CMD(wcrash_load)
     o.keypool = p.keypool;
     o.unsafe_sqlite_sync = false; // real fsyncs
     o.create_wallet = false;
+    o.avoid_reuse = p.avoid_reuse;
     fs::create_directories(fs::PathFromString(dir));
     fs::create_directories(fs::PathFromString(side));
     WalletSim sim(o);
@@ -1311,6 +1361,7 @@ VH_CMD(wallet_encrypt)
         const int nimp = static_cast<int>(rng.below(4));
         vh::J rec;
         rec.u("case", c).i("pass_class", cls).i("imports", nimp).b("unsafe_sync", o.unsafe_sqlite_sync);
+        bool continue_outer = false;
         std::vector<std::string> problems; // "key|text"
         auto bad = [&](const std::string& key, const std::string& text) { problems.push_back(vh::J().str("key", key).str("msg", text).done()); };
         {
@@ -1447,8 +1498,16 @@ VH_CMD(wallet_encrypt)
                 // reload
                 sim.UnloadWallet();
                 scan("after_unload");
-                sim.LoadWallet();
-                CWallet& w2 = sim.W();
+                std::string load_err;
+                std::shared_ptr<CWallet> reloaded = SafeLoad(sim, load_err);
+                if (!reloaded) {
+                    bad("wallet-load-failed-after-encrypt", "encrypted wallet does not load after a clean unload: " + load_err);
+                    rec.raw("problems", vh::JArr(problems)).str("sig", std::to_string(cls) + "/" + std::to_string(nimp) + "/" + std::to_string(o.keypool) + "/" + std::to_string(o.unsafe_sqlite_sync));
+                    vh::log().rec(rec);
+                    continue_outer = true;
+                }
+                if (reloaded) {
+                CWallet& w2 = *reloaded;
                 const std::string dump2 = CanonDump(w2);
                 rec.b("reload_encrypted", w2.HasEncryptionKeys()).b("reload_locked", w2.IsLocked()).str("dump_before_unload", dump1).str("dump_after_reload", dump2);
                 {
@@ -1476,10 +1535,16 @@ VH_CMD(wallet_encrypt)
                     w2.Lock();
                     vh::log().obs("reloads");
                 }
-                sim.UnloadWallet();
+                wallet::TestUnloadWallet(std::move(reloaded));
+                reloaded.reset();
                 scan("final");
+                }
             }
             (void)dump0;
+        }
+        if (continue_outer) {
+            fs::remove_all(dir);
+            continue;
         }
         rec.raw("problems", vh::JArr(problems)).str("sig", std::to_string(cls) + "/" + std::to_string(nimp) + "/" + std::to_string(o.keypool) + "/" + std::to_string(o.unsafe_sqlite_sync));
         vh::log().rec(rec);
@@ -1499,17 +1564,18 @@ VH_CMD(wallet_restart)
         const fs::path dir = fs::PathFromString(std::string(tmp ? tmp : "/var/tmp") + "/wr" + std::to_string(c) + "_" + std::to_string(::getpid()));
         fs::remove_all(dir);
         fs::create_directories(dir);
-        Plan p = MakePlan(43, static_cast<int>(c % 2), args.seed + c, args.geti("steps", 0));
+        Plan p = MakePlan(43, static_cast<int>(c % 6), args.seed + c, args.geti("steps", 0));
         p.w[RELOAD] = 6;
         Options o;
         o.keypool = p.keypool;
         o.unsafe_sqlite_sync = true;
         o.create_wallet = false;
+        o.avoid_reuse = p.avoid_reuse;
         {
             WalletSim sim(o);
             gArgs.ForceSetArg("-walletdir", fs::PathToString(dir));
             Runner R(sim, args.seed, 0x770000 + c, "");
-            R.pass = PassFor(args.seed + c, 43, static_cast<int>(c % 2));
+            R.pass = PassFor(args.seed + c, 43, static_cast<int>(c % 6));
             g_journal = false;
             DoInit(sim, R, p);
             RunSteps(sim, R, p);
